@@ -1,4 +1,178 @@
-// Whole-API scenario commands of grdrv: histories, justification, feature-value machines.
+// Whole-API scenario commands of grdrv: histories on one face (C08, C16, C18), justification (C19).
 #pragma once
 #include "drv_common.h"
-inline std::string dispatch_scenarios(uint8_t cmd, Reader &rd, std::map<uint32_t, std::vector<uint8_t>> &fonts) { (void)cmd; (void)rd; (void)fonts; return ""; }
+#include "shape_case.h"
+#include "face_report.h"
+#include <algorithm>
+#include <cmath>
+
+extern "C" int __lsan_do_recoverable_leak_check();
+
+// ---------------------------------------------------------------------------------------------
+// 'H' history.  Request: u32 fontid, u8 src, u8 opts, ReportOpts, u16 nops, ops...
+// Every op that yields an observation appends one JSON value to "obs".
+//  1 make_seg     i16 font_idx(-1 none) i16 fv_idx(-1 none) u8 keep  ShapeParams      -> {"seg":..,"labels":..,"dump":..}
+//  2 destroy_seg  u16 idx
+//  3 make_font    f32 ppm
+//  4 destroy_font u16 idx
+//  5 fv_for_lang  u32 tag
+//  6 fv_clone     u16 idx
+//  7 fv_set       u16 fv_idx u16 fref_idx(visible index) u16 value                      -> {"ok":0/1}
+//  8 fv_destroy   u16 idx
+//  9 fv_get_all   u16 idx                                                               -> [values]
+// 10 label        u16 fref_idx i16 setting(-1 = feature label) u16 lang u8 enc          -> label json
+// 11 char_support u32 cp                                                                -> 0/1
+// 12 report                                                                             -> face report
+// 13 find_fref    u32 id                                                                -> visible index or -1
+// 14 justify      u16 seg_idx u16 start_pos i16 font_idx f64 width u8 flags i16 first_pos i16 last_pos -> {"w":..,"lines":..}
+// 15 linebreak    u16 seg_idx u16 pos
+// 16 dump_seg     u16 seg_idx                                                           -> dump (+invariants) of a kept segment
+struct HSeg { gr_segment *seg = nullptr; std::vector<const gr_slot *> order; std::vector<size_t> line_starts; const gr_font *font = nullptr; };
+
+inline std::string line_state(HSeg &hs) {
+    // per line: slots reached by next from the recorded line start, with prev consistency; as positions in the original order
+    std::map<const gr_slot *, int> pos;
+    for (size_t i = 0; i < hs.order.size(); ++i) pos[hs.order[i]] = int(i);
+    std::string s = "[";
+    for (size_t li = 0; li < hs.line_starts.size(); ++li) {
+        if (li) s += ",";
+        const gr_slot *p = hs.order[hs.line_starts[li]];
+        s += "{\"prev0\":" + std::to_string(gr_slot_prev_in_segment(p) == nullptr ? 1 : 0) + ",\"walk\":[";
+        const gr_slot *last = nullptr; size_t k = 0; bool prev_ok = true, finite = true;
+        for (; p && k <= hs.order.size() + 2; p = gr_slot_next_in_segment(p), ++k) {
+            if (k) s += ",";
+            auto it = pos.find(p);
+            s += std::to_string(it == pos.end() ? -1 : it->second);
+            if (k && gr_slot_prev_in_segment(p) != last) prev_ok = false;
+            if (!std::isfinite(gr_slot_origin_X(p)) || !std::isfinite(gr_slot_origin_Y(p))) finite = false;
+            last = p;
+        }
+        s += "],\"prev_ok\":" + std::to_string(int(prev_ok)) + ",\"finite\":" + std::to_string(int(finite)) + "}";
+    }
+    return s + "]";
+}
+
+inline std::string cmd_history(Reader &rd, std::map<uint32_t, std::vector<uint8_t>> &fonts) {
+    uint32_t fid = rd.u32();
+    int src = rd.u8();
+    unsigned opts = rd.u8();
+    auto it = fonts.find(fid);
+    if (rd.bad || it == fonts.end()) return "{\"error\":\"bad history request\"}";
+    Exact fbuf(it->second);
+    std::string obs = "[";
+    bool first = true;
+    auto emit = [&](const std::string &v) { if (!first) obs += ","; first = false; obs += v; };
+    std::string ledger = "null";
+    int leaks = -1;
+    {
+        FaceBox fb;
+        hooks().reset();
+        make_face(fb, fbuf.p, fbuf.n, src, opts);
+        if (!fb.face) return "{\"face\":0}";
+        if (fb.mf && (opts & gr_face_preloadAll) == gr_face_preloadAll) fb.mf->frozen = true;
+        const gr_face *face = fb.face;
+        std::vector<HSeg> segs;
+        std::vector<gr_font *> fnts;
+        std::vector<gr_feature_val *> fvs;
+        unsigned nops = rd.u16();
+        for (unsigned oi = 0; oi < nops && !rd.bad; ++oi) {
+            unsigned op = rd.u8();
+            switch (op) {
+            case 1: {
+                int fi = int16_t(rd.u16()), vi = int16_t(rd.u16()); bool keep = rd.u8();
+                ShapeParams sp = read_shape_params(rd);
+                if (rd.bad) break;
+                const gr_font *f = (fi >= 0 && size_t(fi) < fnts.size()) ? fnts[fi] : nullptr;
+                const gr_feature_val *fv = (vi >= 0 && size_t(vi) < fvs.size()) ? fvs[vi] : nullptr;
+                ShapeResult r; gr_segment *kept = nullptr;
+                run_shape(face, sp, r, f, fi >= 0, fv, keep ? &kept : nullptr);
+                if (keep) {
+                    HSeg hs; hs.seg = kept; hs.font = f;
+                    if (kept) { for (const gr_slot *p = gr_seg_first_slot(kept); p && hs.order.size() < 100000; p = gr_slot_next_in_segment(p)) hs.order.push_back(p); hs.line_starts.push_back(0); }
+                    segs.push_back(hs);
+                }
+                emit("{" + shape_json(r) + "}");
+                break; }
+            case 2: { unsigned i = rd.u16(); if (i < segs.size() && segs[i].seg) { gr_seg_destroy(segs[i].seg); segs[i].seg = nullptr; } break; }
+            case 3: { float ppm = rd.f32(); fnts.push_back(gr_make_font(ppm, face)); break; }
+            case 4: { unsigned i = rd.u16(); bool used = false; if (i < fnts.size() && fnts[i]) { for (auto &h : segs) if (h.seg && h.font == fnts[i]) used = true; if (!used) { gr_font_destroy(fnts[i]); fnts[i] = nullptr; } } break; }
+            case 5: { uint32_t tag = rd.u32(); fvs.push_back(gr_face_featureval_for_lang(face, tag)); break; }
+            case 6: { unsigned i = rd.u16(); fvs.push_back(i < fvs.size() && fvs[i] ? gr_featureval_clone(fvs[i]) : gr_featureval_clone(nullptr)); break; }
+            case 7: {
+                unsigned vi = rd.u16(), fi = rd.u16(); uint16_t val = rd.u16();
+                int ok = -1;
+                if (vi < fvs.size() && fvs[vi]) { const gr_feature_ref *fr = gr_face_fref(face, uint16_t(fi)); if (fr) ok = gr_fref_set_feature_value(fr, val, fvs[vi]); }
+                emit("{\"ok\":" + std::to_string(ok) + "}");
+                break; }
+            case 8: { unsigned i = rd.u16(); if (i < fvs.size() && fvs[i]) { gr_featureval_destroy(fvs[i]); fvs[i] = nullptr; } break; }
+            case 9: { unsigned i = rd.u16(); emit(i < fvs.size() && fvs[i] ? featureval_json(face, fvs[i]) : "null"); break; }
+            case 10: {
+                unsigned fi = rd.u16(); int setting = int16_t(rd.u16()); uint16_t lang = rd.u16(); int enc = rd.u8();
+                const gr_feature_ref *fr = gr_face_fref(face, uint16_t(fi));
+                if (!fr || (enc != 1 && enc != 2 && enc != 4)) { emit("null"); break; }
+                uint32_t len = 0; uint16_t l = lang;
+                void *lbl = setting < 0 ? gr_fref_label(fr, &l, gr_encform(enc), &len) : gr_fref_value_label(fr, uint16_t(setting), &l, gr_encform(enc), &len);
+                emit("{\"lang\":" + std::to_string(l) + ",\"l\":" + label_json(lbl, enc, len) + "}");
+                if (lbl) gr_label_destroy(lbl);
+                break; }
+            case 11: { uint32_t cp = rd.u32(); emit(std::to_string(gr_face_is_char_supported(face, cp, 0))); break; }
+            case 12: { ReportOpts ro; ro.label_langs = {0x0409}; ro.chars = {0x20, 0x41, 0x61, 0x62, 0x1000, 0x627, 0xFFFF, 0x10000}; emit(face_report(face, ro)); break; }
+            case 13: { uint32_t id = rd.u32(); const gr_feature_ref *fr = gr_face_find_fref(face, id); int idx = -1; unsigned n = gr_face_n_fref(face); for (unsigned i = 0; fr && i < n; ++i) if (gr_face_fref(face, uint16_t(i)) == fr) idx = int(i); emit(std::to_string(fr ? idx : -2)); break; }
+            case 14: {
+                unsigned si = rd.u16(), start = rd.u16(); int fi = int16_t(rd.u16()); double width = rd.f64(); unsigned fl = rd.u8(); int fp = int16_t(rd.u16()), lp = int16_t(rd.u16());
+                if (rd.bad || si >= segs.size() || !segs[si].seg || start >= segs[si].order.size()) { emit("null"); break; }
+                HSeg &hs = segs[si];
+                const gr_font *f = (fi >= 0 && size_t(fi) < fnts.size()) ? fnts[fi] : nullptr;
+                const gr_slot *pf = (fp >= 0 && size_t(fp) < hs.order.size()) ? hs.order[fp] : nullptr;
+                const gr_slot *pl = (lp >= 0 && size_t(lp) < hs.order.size()) ? hs.order[lp] : nullptr;
+                float w = gr_seg_justify(hs.seg, hs.order[start], f, width, gr_justFlags(fl), pf, pl);
+                std::string gids = "[";
+                for (size_t i = 0; i < hs.order.size(); ++i) { if (i) gids += ","; gids += std::to_string(gr_slot_gid(hs.order[i])); }
+                emit("{\"w\":" + jnum(w) + ",\"lines\":" + line_state(hs) + ",\"gids\":" + gids + "]}");
+                break; }
+            case 15: {
+                unsigned si = rd.u16(), pos = rd.u16();
+                if (si < segs.size() && segs[si].seg && pos > 0 && pos < segs[si].order.size()) {
+                    HSeg &hs = segs[si];
+                    bool dup = false; for (size_t x : hs.line_starts) if (x == pos) dup = true;
+                    if (!dup) { gr_slot_linebreak_before(const_cast<gr_slot *>(hs.order[pos])); hs.line_starts.push_back(pos); std::sort(hs.line_starts.begin(), hs.line_starts.end()); }
+                }
+                break; }
+            case 16: {
+                unsigned si = rd.u16();
+                if (si >= segs.size() || !segs[si].seg) { emit("null"); break; }
+                HSeg &hs = segs[si];
+                std::string gids = "[";
+                for (size_t i = 0; i < hs.order.size(); ++i) { if (i) gids += ","; gids += std::to_string(gr_slot_gid(hs.order[i])); }
+                emit("{\"lines\":" + line_state(hs) + ",\"gids\":" + gids + "]}");
+                break; }
+            default: rd.bad = true;
+            }
+        }
+        // orderly teardown: segments, feature values, fonts, then the face
+        for (auto &h : segs) if (h.seg) gr_seg_destroy(h.seg);
+        for (auto *v : fvs) if (v) gr_featureval_destroy(v);
+        for (auto *f : fnts) if (f) gr_font_destroy(f);
+        fb.destroy();
+        if (fb.mf) {
+            const MemFace &m = *fb.mf;
+            ledger = "{\"gets\":" + std::to_string(m.gets) + ",\"rel\":" + std::to_string(m.releases) + ",\"out\":" + std::to_string(m.outstanding()) + ",\"after_freeze\":" +
+                     std::to_string(m.gets_after_freeze) + ",\"errors\":" + std::to_string(m.errors.size()) + "}";
+        }
+    }
+    if (rd.bad) return "{\"error\":\"malformed history\"}";
+    return "{\"face\":1,\"obs\":" + obs + "],\"ledger\":" + ledger + "}";
+}
+
+// 'K': LeakSanitizer check at quiescence (nothing of the library should be allocated between requests
+// except cached faces, which are reachable from the driver's globals and therefore not leaks)
+inline std::string cmd_leakcheck() {
+    int r = __lsan_do_recoverable_leak_check();
+    return "{\"leaks\":" + std::to_string(r) + "}";
+}
+
+inline std::string dispatch_scenarios(uint8_t cmd, Reader &rd, std::map<uint32_t, std::vector<uint8_t>> &fonts) {
+    if (cmd == 'H') return cmd_history(rd, fonts);
+    if (cmd == 'K') return cmd_leakcheck();
+    return "";
+}
